@@ -102,7 +102,7 @@ def expand(case: dict, hist: list, oracle: Oracle) -> tuple[core.CaseResult, lis
         if base is None or res.violations:
             return res, succ
         k0 = tree.state_key(base)
-        opl = ops.enum_ops(base, oracle.level, oracle.kinds, oracle.model_filter)
+        opl = ops.enum_ops(base, case.get('level', oracle.level), oracle.kinds, oracle.model_filter)
         opl = [op for op in opl if oracle.op_filter(base, op)]
         for op in opl:
             h2 = hist + [op]
@@ -223,7 +223,8 @@ def make_run_case(oracle: Oracle) -> Callable[[dict], core.CaseResult]:
 
 
 def corpus(alphabet: list[str], nmax: int, *, nmin: int = 1, modes=(True,), variants=(('lf', True),),
-           depth: int = 1, lf: Optional[int] = None, need: Optional[Callable[[Any], bool]] = None) -> list[dict]:
+           depth: int = 1, lf: Optional[int] = None, need: Optional[Callable[[Any], bool]] = None,
+           level: Optional[str] = None) -> list[dict]:
     out = []
     for t in docs.texts(alphabet, nmax, nmin=nmin, variants=variants):
         for mode in modes:
@@ -235,5 +236,7 @@ def corpus(alphabet: list[str], nmax: int, *, nmin: int = 1, modes=(True,), vari
             c = {'text': t, 'mode': mode, 'depth': depth}
             if lf is not None:
                 c['lf'] = lf
+            if level is not None:
+                c['level'] = level
             out.append(c)
     return out
